@@ -455,6 +455,52 @@ def _len(v):
     return 'auto' if v is None else v
 
 
+def area_derived(p):
+    """css-grid 8.4, omitted component of `grid-area`: the corresponding start value when that is a <custom-ident>
+    (no span, no integer), `auto` otherwise."""
+    return p if p != 'auto' and p[0] is None and p[1] is None else 'auto'
+
+
+def area_components(it):
+    """The `grid-area` value `row-start / column-start / row-end / column-end` of an item with as many trailing
+    components omitted as css-grid 8.4 allows (the omitted ones are derived back by the expander)."""
+    comps = [it['rs'], it['cs'], it['re'], it['ce']]
+    if it['ce'] == area_derived(it['cs']):
+        comps = comps[:3]
+        if it['re'] == area_derived(it['rs']):
+            comps = comps[:2]
+            if it['cs'] == area_derived(it['rs']):
+                comps = comps[:1]
+    return comps
+
+
+def area_variant(doc, rng):
+    """A copy of the document whose items are fit to be written with `grid-area` in its one-, two-, three- and
+    four-component forms: some places become <custom-ident>s, trailing components take the value the shorthand
+    derives for them.  The longhand values of the copy are the css-grid 8.4 expansion: they go to the model."""
+    import copy
+    doc = copy.deepcopy(doc)
+    names = sorted({a for row in (doc['areas'] or []) for a in row if a}) + NAMES
+    for it in doc['items']:
+        for key in ('rs', 'cs', 're'):
+            if rng.random() < 0.3:
+                it[key] = (None, None, rng.choice(names))
+        k = rng.choice([1, 2, 3, 3, 3, 4])
+        if k <= 3:
+            it['ce'] = area_derived(it['cs'])
+        if k <= 2:
+            it['re'] = area_derived(it['rs'])
+        if k == 1:
+            it['cs'] = area_derived(it['rs'])
+            it['ce'] = area_derived(it['cs'])
+        # an item that may span several tracks has no intrinsic size (assumption of the models)
+        if not single_cell(it['cs'], it['ce']):
+            it.update({'width': None, 'ml': 0, 'mr': 0, 'pl': 0, 'pr': 0, 'bl': 0, 'br': 0})
+        if not single_cell(it['rs'], it['re']):
+            it.update({'height': None, 'mt': 0, 'mb': 0, 'pt': 0, 'pb': 0, 'bt': 0, 'bb': 0})
+    return doc
+
+
 def wire_doc(doc):
     areas = 'none' if doc['areas'] is None else [[a or 'none' for a in row] for row in doc['areas']]
     cont = [wire_template(doc['rows']), wire_template(doc['cols']), [wire_track(t) for t in doc['auto_rows']],
@@ -481,7 +527,9 @@ def html_of(doc, shorthand=False):
             f'align-content:{doc["ac"]};justify-items:{doc["ji"]};align-items:{doc["ai"]}')
     items = []
     for it in doc['items']:
-        lines = ((f'grid-row:{show_place_css(it["rs"])} / {show_place_css(it["re"])};'
+        lines = ('grid-area:' + ' / '.join(show_place_css(p) for p in area_components(it)) + ';'
+                 if shorthand == 'area' else
+                 (f'grid-row:{show_place_css(it["rs"])} / {show_place_css(it["re"])};'
                   f'grid-column:{show_place_css(it["cs"])} / {show_place_css(it["ce"])};') if shorthand else
                  (f'grid-row-start:{show_place_css(it["rs"])};grid-row-end:{show_place_css(it["re"])};'
                   f'grid-column-start:{show_place_css(it["cs"])};grid-column-end:{show_place_css(it["ce"])};'))
